@@ -59,6 +59,9 @@ open_("C05", "D4", "C05/unparsable-note", [],
 open_("C05", "D27", "C05/path-not-in-commit", [],
       "history: a tracked file named `nl<LF>name.txt` gets one AI line and is committed => the quoted path is written with the raw newline, so the attestation section has two path lines `\"nl` and `name.txt\"`, neither of which exists in the commit",
       "c05.file_name_with_newline", ["name:nl\nname.txt"], affects=["C17"])
+open_("C13", "D65", "C13/lost@hooks-pull-dup", [],
+      "history: a local commit with an agent's line is also upstream as an identical patch (cherry-picked there with plain git after an upstream-only commit); uncommitted agent work on top; `git pull --rebase --autostash origin main` drops the local commit as already applied => through the wrapper the agent's committed line keeps its session, with git-ai installed as git hooks it becomes human (upstream's copy of the commit has no note; only the wrapper maps the dropped commit's note onto it)",
+      "c13.pull_rebase_drops_local_commit_that_upstream_has", ["pull_dup_commit_ai"], affects=[])
 open_("C13", "D28", "C13/lost@f.txt:2", ["C13/lost@f.txt:3"],
       "history: AI session inserts 2 lines after line 1 of f.txt; `git stash push`; a commit to g.txt; `git stash apply`; commit => in wrapper mode lines 2-3 are AI, with git-ai installed as git hooks (plain git) they are human (`stash pop` keeps them in both modes)",
       "c13.stash_apply_after_head_moved_in_hooks_mode", ["hooks_stash_apply"], affects=[])
